@@ -2261,6 +2261,18 @@ private:
             return std::pair<iterator, bool>(iterator(leaf, slot), false);
         }
 
+        // the value may be an item of this very leaf, e.g. insert(*iter) on a
+        // multiset or multimap. Splitting the leaf and shifting its items
+        // changes the referenced slot before it is read, so insert a copy.
+        if (!std::less<const value_type*>()(&value, leaf->slotdata) &&
+            std::less<const value_type*>()(&value,
+                                           leaf->slotdata + leaf->slotuse))
+        {
+            const value_type copy(value);
+            return insert_descend(n, key_of_value::get(copy), copy, splitkey,
+                                  splitnode);
+        }
+
         if (leaf->is_full())
         {
             split_leaf_node(leaf, splitkey, splitnode);
